@@ -438,6 +438,9 @@ fn c02(thorough: bool, rng: &mut Rng, out: &mut Out) {
         let len = if rng.chance(80) { rng.range(0, 20) as usize } else { random_len(rng) };
         seeds.push((rng.next() as u16, rng.byte(), rng.bytes(len)));
     }
+    // long frames: truncations that drop a multiple of 256 characters, length fields >= 0x80
+    seeds.push((0, 0, vec![0u8; 128]));
+    seeds.push((rng.next() as u16, rng.byte(), rng.bytes(130)));
     if thorough {
         seeds.push((0x1234, 0x56, rng.bytes(255)));
         seeds.push((0xFFFF, 0, vec![0xFF; 255]));
@@ -460,6 +463,15 @@ fn c02(thorough: bool, rng: &mut Rng, out: &mut Out) {
                     out.stat("fault.accepted-as-original");
                     if got != okline {
                         out.fail(i, format!("C02 damaged frame ({} of {}) decoded as a different frame: {}", what, hex_of(&w), got));
+                    } else {
+                        // second sentence of the property: even when the result equals the original,
+                        // a string whose declared length or checksum is wrong must not be accepted
+                        let judge = indep_dec(&x);
+                        if judge.starts_with("err mismatch") {
+                            out.fail(i, format!("C02 a frame whose declared length disagrees with its data was accepted ({} of {}): {}", what, hex_of(&w), judge));
+                        } else if judge.starts_with("err badsum") {
+                            out.fail(i, format!("C02 a frame whose checksum does not match was accepted ({} of {}): {}", what, hex_of(&w), judge));
+                        }
                     }
                 } else if got.contains("PANIC") {
                     out.fail(i, format!("C02 decoder panicked on {} of {}", what, hex_of(&w)));
